@@ -68,6 +68,10 @@ type runner struct {
 	engine            string
 	listen            bool
 	subset            map[string]bool // nil = all functions
+	// ensureTerm: the runtime has close-on-context-done; every top-level call gets its own cancellable
+	// context, cancelled after the call returned (never during it)
+	ensureTerm bool
+	termWaits  int
 	// perInstCompile: every instance is a separate CompileModule call with its own factory, all
 	// functions listened: the events of instance i must reach the listeners instance i's factory made
 	perInstCompile bool
@@ -378,7 +382,7 @@ func (r *runner) setup(plans []*plan.Plan, names []string, imports []int) {
 	} else {
 		cfg = wazero.NewRuntimeConfigCompiler()
 	}
-	cfg = cfg.WithCoreFeatures(api.CoreFeaturesV2 | experimental.CoreFeaturesTailCall | experimental.CoreFeaturesThreads)
+	cfg = cfg.WithCoreFeatures(api.CoreFeaturesV2 | experimental.CoreFeaturesTailCall | experimental.CoreFeaturesThreads).WithCloseOnContextDone(r.ensureTerm)
 	r.rt = wazero.NewRuntimeWithConfig(r.ctx, cfg)
 	if _, err := wasi_snapshot_preview1.Instantiate(r.ctx, r.rt); err != nil {
 		panic(err)
